@@ -154,6 +154,8 @@ where
             account.mark_touch();
             let _ = state.insert(self.beneficiary, account);
         }
+        #[cfg(grevm_verif)]
+        crate::verif::event(crate::verif::Event::Commit { txid, result: &result, state: &state });
         self.state.commit(state);
         Ok(CommitOutcome::Committed(output.push(result)))
     }
